@@ -9,7 +9,8 @@ abstract world extracted by the harness:
  scope=all|f:<keys> blocked=<keys> refsat=none|<key>:<oid>,… L=<key>:<name>:<oid>,… A=…
  B=<key>@<oid>:x | <key>@<oid>:<sigOk>:<a|s|o>:<name>><oid>+…;…  ANC=<old>><new>:<E|A|B|D>,…`
 
-Output: `success r=<validated remotes> L=<refdb>` | `failed L=…` | `error L=…` | `panic L=…`, the refdb
+Output: `success r=<validated remotes> L=<refdb>` | `failed L=…` | `error L=…` (`panic L=…` is what the harness prints
+when the real code panics; the model never produces it: `fetch_no_panic`), the refdb
 sorted by `(key, name)`. -/
 namespace HeartwoodModel.Driver.C01
 open HeartwoodModel.Fetch HeartwoodModel.Driver.Util
